@@ -198,7 +198,8 @@ def run_unit(name, seed=0, rlimit=None, keep=False, extra_args=()):
         msg = d.get('message', '')
         if msg.startswith('aborting due to'):
             continue
-        spans = d.get('spans', [])
+        spans = [sp for sp in d.get('spans', []) if os.path.basename(sp.get('file_name', '')) == f'{name}.rs']
+        foreign = [sp for sp in d.get('spans', []) if os.path.basename(sp.get('file_name', '')) != f'{name}.rs']
         prim = [s for s in spans if s.get('is_primary')] or spans
         line = prim[0]['line_start'] if prim else 0
         line_end = prim[0]['line_end'] if prim else 0
